@@ -372,8 +372,22 @@ def _c12_nonrecord(fa, v, case, data, one_case, sh, seed):
     if info.get("form") != "piecewise" or not info.get("subset"):
         return False
     js = case["schema"]
-    if isinstance(js, dict) and js.get("type") == "record":
+    if isinstance(js, dict) and js.get("type") in ("record", "error"):
         return False
+    # a top-level union all of whose in-place branches are records carries the table on those
+    # branches (the writer inlines from them): that shape works and is not this mechanism
+    if isinstance(js, list):
+        split = set(info.get("subset") or [])
+
+        def full(b):
+            n = b.get("name", "")
+            return n if "." in n or not b.get("namespace") else b["namespace"] + "." + n
+
+        dicts = [b for b in js if isinstance(b, dict) and not ("name" in b and full(b) in split)]
+        if dicts and all(b.get("type") in ("record", "error") for b in dicts) and info.get("op") in ("container", "container-fresh"):
+            # the container writer does inline from record branches: a file written from such a
+            # union is readable on its own on the unchanged tree, so a failure here is not the finding
+            return False
     if fa is None:
         return True  # fresh-process re-read of a file that could not even be written
     # neutralising edit: the same split below a record top level
